@@ -90,7 +90,10 @@ def yieldedAt (i : Nat) (tr : List (AEv α × AOut α)) : List α :=
 /-- online checker used by the driver on the implementation's trace: one abstract queue per FIFO; the laws are
 those of the single FIFO, for the SELECTED queue (latency 0: flags are exact functions of the stored state) -/
 def acheck [BEq α] (N : Nat) (qs : List (List α)) (e : AEv α) (o : AOut α) : List String × List (List α) :=
-  if e.rst then ((if e.push || e.pop then ["array-request-during-reset"] else []), qs)
+  if e.rst then
+    -- nothing is held while the reset is asserted (the pointer memories are being initialised): flags and size must say so
+    ((if e.push || e.pop then ["array-request-during-reset"] else []) ++
+     (if !o.empty then ["array-empty-flag-optimistic"] else []) ++ (if o.size > 0 then ["array-size-optimistic"] else []), qs)
   else
     let qp := (qs[e.pushSel]?).getD []
     let qq := (qs[e.popSel]?).getD []
@@ -109,8 +112,9 @@ def acheck [BEq α] (N : Nat) (qs : List (List α)) (e : AEv α) (o : AOut α) :
                 | x :: _ => if x == o.peek then [] else ["array-wrong-item-exposed"]
               else []
     let v5 := if o.empty && !qq.isEmpty then ["array-not-exposed"] else []
+    let v6 := if o.size > qq.length then ["array-size-optimistic"] else []
     let qs1 := if yield then qs.modify e.popSel (·.drop 1) else qs
     let qs2 := if accept then qs1.modify e.pushSel (· ++ [e.data]) else qs1
-    (v1 ++ v2 ++ v3 ++ v4 ++ v5, qs2)
+    (v1 ++ v2 ++ v3 ++ v4 ++ v5 ++ v6, qs2)
 
 end Gatery.C15
